@@ -9,6 +9,15 @@
  *            c req close, C close, F tx_freed, D<k> htp_tx_destroy(k-th created tx)
  * output: per op  [@events@]rc:consumed:in_status:out_status:ntx:in_buf_size:|in_header|:out_buf_size:|out_header|  joined by '|' (events separated by spaces, printed by the
  *         callbacks while the call runs), then '||' conn summary ';' one dump per slot of conn->transactions (N = NULL slot) */
+#if defined(__has_feature)
+#if __has_feature(address_sanitizer)
+#include <sanitizer/allocator_interface.h>
+#define CP_HEAP_NOW() __sanitizer_get_current_allocated_bytes()
+#endif
+#endif
+#ifndef CP_HEAP_NOW
+#define CP_HEAP_NOW() ((size_t) 0)
+#endif
 #define CP_NHOOKS 21
 #define CP_MAXCALLS 64
 /* per-connection driver state (one per connection so that several connections can be interleaved / run on threads) */
@@ -221,6 +230,7 @@ static int drv_connp(char **f, int nf) {
     if (nf < 4) { printf("?args"); return 1; }
     cp_cur = &cp_default_ctx;
     cp_load_script(f[2]);
+    size_t cp_heap0 = CP_HEAP_NOW();      /* ASan builds: live heap bytes before the library is used ... */
     htp_cfg_t *cfg = cp_make_cfg(f[1]);
     htp_connp_t *connp = htp_connp_create(cfg);
     char *save = NULL; int first = 1;
@@ -232,6 +242,9 @@ static int drv_connp(char **f, int nf) {
     cp_finish(connp);
     htp_connp_destroy_all(connp);
     htp_config_destroy(cfg);
+    /* ... and after parser and configuration are destroyed: a difference means memory of this case is still allocated
+       (reported as trace bit 30; the comparer strips it like the other trace bits) */
+    if (CP_HEAP_NOW() != cp_heap0) printf(" #t=40000000");
     return 1;
 }
 
